@@ -99,6 +99,31 @@ fn imd_first_tracks(b: &[u8],k: usize) -> Option<Vec<u8>> {
     Some(b[..p].to_vec())
 }
 
+/// the same IMD image with the given sector records of one track replaced by records of type 0 (no data)
+fn imd_unavailable(b: &[u8],track: usize,which: &[usize]) -> Option<Vec<u8>> {
+    let mut p = b.iter().position(|x| *x==0x1a)? + 1;
+    let mut out = b[..p].to_vec();
+    let mut t = 0;
+    while p < b.len() {
+        if p+5 > b.len() { return None; }
+        let (head,nsec,code) = (b[p+2],b[p+3] as usize,b[p+4]);
+        if code>6 { return None; }
+        let size = 128usize << code;
+        let maps = 5 + nsec + (if head & 0x80 != 0 {nsec} else {0}) + (if head & 0x40 != 0 {nsec} else {0});
+        if p+maps > b.len() { return None; }
+        out.extend_from_slice(&b[p..p+maps]); p += maps;
+        for s in 0..nsec {
+            if p >= b.len() { return None; }
+            let len = match b[p] { 0 => 0, 1 | 3 | 5 | 7 => size, 2 | 4 | 6 | 8 => 1, _ => return None };
+            if p+1+len > b.len() { return None; }
+            if t==track && which.contains(&s) { out.push(0); } else { out.extend_from_slice(&b[p..p+1+len]); }
+            p += 1+len;
+        }
+        t += 1;
+    }
+    Some(out)
+}
+
 fn consume_image(bytes: &Vec<u8>,hint: Option<&str>) -> String {
     match a2kit::create_fs_from_bytestream(bytes,hint) {
         Ok(mut d) => {
@@ -110,6 +135,9 @@ fn consume_image(bytes: &Vec<u8>,hint: Option<&str>) -> String {
             let paths = d.glob("*",false).unwrap_or(Vec::new());
             let mut n = 0;
             for p in paths.iter().take(12) { if d.get(p).is_ok() { n += 1; } }
+            // and the sectors of the first tracks, read directly
+            let img = d.get_img();
+            for c in 0..3 { for h in 0..2 { for sec in 0..28 { let _ = img.read_sector(c,h,sec); } } }
             format!("mounted files={}",n)
         },
         Err(_) => {
@@ -288,6 +316,10 @@ pub fn run(toks: &[&str]) -> String {
                     for (o,val) in [(3usize,0u8),(3,1),(3,32),(3,255),(4,0),(4,3),(4,6),(4,7)] {
                         let mut v = bytes.clone(); if hdr+1+o < v.len() { v[hdr+1+o] = val; tables.push((format!("first track byte {} = {}",o,val),v)); }
                     }
+                }
+                // sector records of type 0 ("data unavailable", what ImageDisk writes for unreadable sectors): legal, never written by a2kit
+                for (trk,which) in [(1usize,vec![1usize,2]),(0,vec![0]),(2,vec![0,1,2,3,4,5,6,7])] {
+                    if let Some(v) = imd_unavailable(&bytes,trk,&which) { tables.push((format!("sectors {:?} of track {} unavailable",which,trk),v)); }
                 }
                 for (what,v) in tables {
                     n += 1;
